@@ -316,6 +316,38 @@ def elementwise(node: ast.AST | None):
     return None
 
 
+def per_item_parts(fn: ast.AST, iter_src: str):
+    """how a sequence is assembled per element of `iter_src`: (loop variable, [(kind, expr)]) with kind 'splat' (all elements of expr) or
+    'item' (expr itself), read from either `[[*A, b, *C] for v in <iter>]` (a list display per element, flattened by the caller) or
+    `for v in <iter>: acc.extend(A); acc.append(b); acc += C` (only such statements in the body).  None otherwise."""
+    found = []
+    for n in ast.walk(fn):
+        if isinstance(n, ast.ListComp) and len(n.generators) == 1 and not n.generators[0].ifs and same_expr(n.generators[0].iter, iter_src) \
+                and isinstance(n.elt, ast.List) and isinstance(n.generators[0].target, ast.Name):
+            parts = [("splat", e.value) if isinstance(e, ast.Starred) else ("item", e) for e in n.elt.elts]
+            found.append((n.generators[0].target.id, parts))
+        elif isinstance(n, ast.For) and not n.orelse and same_expr(n.iter, iter_src) and isinstance(n.target, ast.Name):
+            parts = []
+            accs = set()
+            for st in n.body:
+                if isinstance(st, ast.Expr) and isinstance(st.value, ast.Call) and isinstance(st.value.func, ast.Attribute) and st.value.func.attr in ("extend", "append") \
+                        and len(st.value.args) == 1 and not st.value.keywords and isinstance(st.value.func.value, ast.Name):
+                    accs.add(st.value.func.value.id)
+                    parts.append(("splat" if st.value.func.attr == "extend" else "item", st.value.args[0]))
+                elif isinstance(st, ast.AugAssign) and isinstance(st.op, ast.Add) and isinstance(st.target, ast.Name):
+                    accs.add(st.target.id)
+                    parts.append(("splat", st.value))
+                else:
+                    parts = None
+                    break
+            if parts and len(accs) == 1:
+                found.append((n.target.id, parts))
+    if len(found) != 1:
+        return None
+    v, parts = found[0]
+    return v, parts
+
+
 def CT(src: str, strip: bool = False) -> str:
     "canonical text of an expected expression (the index holds idiom-canonical trees: expected texts are canonicalised the same way)"
     t = ast.unparse(canon(ast.parse(src, mode="eval").body))
